@@ -692,6 +692,7 @@ func C10(c *vk.Ctx) {
 	}, c.Pick(300, 4000), func(d hubDoc) bool { return d.Signer == "A" || d.Q == "down" || d.Q == "garbage" }, RandomShape, predC10)
 	c.Add("traces_validated_against_impl", int64(c10Overlap(c)))
 	c.Add("traces_validated_against_impl", int64(c10FailedSwap(c)))
+	c.Add("traces_validated_against_impl", int64(c10QueuedBehindFailingLoad(c)))
 	c.Set("spec", "Revocation.tla: StrictGate, LenientNeverDenies (action properties); CrlRepo.tla LSwapFault (a first load that fails at its last step is a failed load)")
 	c.Set("rule", "as C01; predicates: strict AND certificate names distribution points AND accepted AND ghost says that CRL is not in force => violation; lenient AND denied AND not listed AND OCSP accepted => violation; CDP sets: http (c1), ldap-only (c3), none (c2)")
 }
@@ -764,6 +765,110 @@ func refreshThenStricterPaths(g *graph.Graph) [][]*graph.Edge {
 		}
 	}
 	return out
+}
+
+// c10QueuedBehindFailingLoad: "before the first successful load, after failed loads" for a handshake that is not alone: certificate B
+// names the same distribution points as certificate A and arrives while A's first load (which will fail: the origin serves an
+// error page, slowly) holds the entry. With crl_cdp_strict on both are denied - no CRL for that distribution-point set is in
+// force when either of them is judged; with it off neither is denied for that reason.
+func c10QueuedBehindFailingLoad(c *vk.Ctx) int { return queuedBehindFailingLoad(c, []string{"garbage", "badsig"}) }
+
+// queuedBehindFailingLoad with kind "then-good": only the first answer of the origin is an error page (served slowly); every later
+// one is the valid list, which names certificate B. In every sequential order of the two handshakes B's own download succeeds and B
+// is refused (C13: each verdict is one that some sequential ordering would have produced).
+func queuedBehindFailingLoad(c *vk.Ctx, kinds []string) int {
+	n := 0
+	for _, disk := range []bool{false, true} {
+		for _, strict := range []bool{true, false} {
+			for _, kind := range kinds {
+				if c.Violations() > 6 || (!c.Thorough() && kind == "badsig" && disk != strict) {
+					continue
+				}
+				org := origin.New()
+				ca := pki.NewCA(pki.CAOpts{Name: "Queue CA", Serial: 1500})
+				evil := pki.NewCA(pki.CAOpts{Name: "Queue CA", Serial: 1501})
+				a := ca.Leaf(pki.LeafOpts{CN: "first in the queue", Serial: big.NewInt(1502), CDP: []string{org.URL + "/cdp/queue.crl"}})
+				b := ca.Leaf(pki.LeafOpts{CN: "second in the queue", Serial: big.NewInt(1503), CDP: []string{org.URL + "/cdp/queue.crl"}})
+				body := []byte("<html><body>503 Service Unavailable</body></html>")
+				if kind == "badsig" {
+					body = evil.SimpleCRL(4, 990003)
+				}
+				release := make(chan struct{})
+				arrived := make(chan struct{}, 8)
+				var once sync.Once
+				gate := func() {
+					slow := false
+					once.Do(func() { slow = true })
+					if slow { // only the first answer is slow
+						arrived <- struct{}{}
+						select {
+						case <-release:
+						case <-time.After(60 * time.Second):
+						}
+					}
+				}
+				org.Set("/cdp/queue.crl", origin.Behaviour{Kind: "gated", Body: body, Gate: gate})
+				if kind == "then-good" {
+					var reqs atomic.Int64
+					good := ca.SimpleCRL(5, 1503)
+					org.Set("/cdp/queue.crl", origin.Behaviour{Kind: "func", Func: func([]byte) (int, []byte) {
+						if reqs.Add(1) == 1 {
+							gate()
+							return 503, body
+						}
+						return 200, good
+					}})
+				}
+				w, err := world.New(world.Cfg{Mode: "crl_only", Storage: backendName(disk), Sig: "verify", Fetch: "fetch_actively", Interval: "1h", CdpStrict: strict})
+				if err != nil {
+					c.Infra("world: %v", err)
+				}
+				if err := w.Provision(); err != nil {
+					c.Infra("provision: %v", err)
+				}
+				resA, resB := make(chan world.Result, 1), make(chan world.Result, 1)
+				go func() { resA <- w.HandshakeTimeout(pki.Chain(a.Cert, ca), 120*time.Second) }()
+				select {
+				case <-arrived:
+				case <-time.After(30 * time.Second):
+					c.Drift("queued-load:transfer-never-started")
+					close(release)
+					w.Destroy()
+					org.Close()
+					continue
+				}
+				go func() { resB <- w.HandshakeTimeout(pki.Chain(b.Cert, ca), 120*time.Second) }()
+				time.Sleep(150 * time.Millisecond) // B is waiting for the entry now (or has been answered already)
+				close(release)
+				ra, rb := <-resA, <-resB
+				n++
+				c.Eval(fmt.Sprintf("queued-load|%s|%v|%s", backendName(disk), strict, kind))
+				rep := map[string]any{"backend": backendName(disk), "strict": strict, "origin_serves": kind, "first": ra, "second": rb, "requests": org.Hits("/cdp/queue.crl")}
+				if kind == "then-good" {
+					if rb.Verdict != "revoked" {
+						c.Violation(fmt.Sprintf("verdict-not-sequential:second-handshake-during-a-failing-first-load:%s:strict=%v", backendName(disk), strict),
+							fmt.Sprintf("certificate B is named by the list that the origin serves to every request but the first; B was presented while A's load (first request: an error page) was failing, and B's verdict was %s %s - in every sequential order B is refused", rb.Verdict, rb.Err), rep)
+					}
+					w.Destroy()
+					org.Close()
+					continue
+				}
+				for who, r := range map[string]world.Result{"first": ra, "second": rb} {
+					switch {
+					case strict && r.Verdict == "accept":
+						c.Violation(fmt.Sprintf("strict:accepted-without-crl-in-force:queued-behind-a-failing-load:%s:%s", who, backendName(disk)),
+							fmt.Sprintf("crl_cdp_strict is on and no CRL of the distribution point was ever loaded (the origin serves %s); the %s of two overlapping handshakes was accepted", kind, who), rep)
+					case !strict && r.Verdict != "accept":
+						c.Violation(fmt.Sprintf("lenient:denied-by-cdp-trouble:queued-behind-a-failing-load:%s:%s", who, backendName(disk)),
+							fmt.Sprintf("crl_cdp_strict is off, the certificate is listed nowhere, and the %s of two overlapping handshakes was denied: %s %s", who, r.Verdict, r.Err), rep)
+					}
+				}
+				w.Destroy()
+				org.Close()
+			}
+		}
+	}
+	return n
 }
 
 // c10FailedSwap: "after failed loads" includes a load that fails at its very last step, when the storage layer refuses to put the
